@@ -556,6 +556,7 @@ func (p *Path) visitInstr(fr *frame, instr ssa.Instruction) continuation {
 		if ptr == nil {
 			p.targetPanicStr("runtime error: invalid memory address or nil pointer dereference")
 		}
+		p.raceWrite(ptr, instr.Pos())
 		*ptr = copyVal(fr.get(instr.Val))
 	case *ssa.If:
 		c := fr.get(instr.Cond)
